@@ -2502,3 +2502,117 @@ Proof.
   cbv zeta. rewrite E1, E2. cbn [fst snd]. rewrite T1, T2, R1, R2.
   split; [reflexivity|]. split; [reflexivity|]. apply trace_chars_two; try assumption. apply owner_plan_kind.
 Qed.
+
+(* ================================================================ Part 5: erasure of resolution and reference creation *)
+(* a borrowed object without text blocks *)
+Definition bwf (d : muri) : Prop := m_owner d = false /\ text_blocks d = [].
+
+Lemma sublist_nil_r {A} (l : list A) : sublist l [] -> l = [].
+Proof. intros H. inversion H. reflexivity. Qed.
+Lemma concat_upd_nil (parts : list (list nat)) i : concat parts = [] -> concat (upd i [] parts) = [].
+Proof.
+  intros H. pose proof (concat_upd_sub [] parts i (sublist_nil _)) as S. rewrite H in S.
+  apply sublist_nil_r. exact S.
+Qed.
+Lemma bwf_upd d d' i X : bwf d -> m_owner d' = m_owner d -> block_parts d' = upd i X (block_parts d) -> X = [] -> bwf d'.
+Proof.
+  intros [Ho Hb] Ho' Hp ->. split; [congruence|]. unfold text_blocks in *. rewrite Hp. apply concat_upd_nil. exact Hb.
+Qed.
+Lemma bwf_segs_nil d : bwf d -> flat_map seg_blk (m_segs d) = [].
+Proof.
+  intros [_ Hb]. unfold text_blocks, block_parts in Hb. cbn [concat] in Hb.
+  do 5 (apply app_eq_nil in Hb; destruct Hb as [_ Hb]). apply app_eq_nil in Hb. apply Hb.
+Qed.
+Lemma bwf_set_segs d segs : bwf d -> flat_map seg_blk segs = [] -> bwf (set_m_segs segs d).
+Proof. intros H Hs. apply (bwf_upd d _ 5 (flat_map seg_blk segs) H); [reflexivity|reflexivity|exact Hs]. Qed.
+Lemma bwf_segsub d segs : bwf d -> segsub segs (m_segs d) -> bwf (set_m_segs segs d).
+Proof.
+  intros H Hs. apply bwf_set_segs; [exact H|]. apply sublist_nil_r. rewrite <- (bwf_segs_nil d H).
+  apply segsub_blocks. exact Hs.
+Qed.
+Lemma bwf_empty : bwf muri_empty.
+Proof. split; reflexivity. Qed.
+
+Lemma borrow_blk t : text_blk (borrow t) = [].
+Proof. apply text_blk_noblk. Qed.
+
+Lemma copy_segs_nf src : forall acc s, nofault s ->
+  exists segs' s', copy_segs acc src s = (true, rev acc ++ segs', s')
+    /\ map sg_text segs' = map sg_text src /\ flat_map seg_blk segs' = [] /\ st_le s s'.
+Proof.
+  induction src as [|sg r IH]; intros acc s Hnf; cbn [copy_segs].
+  - exists [], s. rewrite app_nil_r. split; [reflexivity|]. split; [reflexivity|]. split; [reflexivity|apply st_le_refl].
+  - rewrite (alloc_nf _ _ _ Hnf).
+    destruct (IH ({| sg_text := sg_text sg; sg_blk := None; sg_node := ms_next s |} :: acc) _
+                 (st_le_nofault _ _ (push_alloc_le false SEG_SIZE s) Hnf)) as (segs' & s' & E & V & B & L).
+    exists ({| sg_text := sg_text sg; sg_blk := None; sg_node := ms_next s |} :: segs'), s'.
+    rewrite E. cbn [rev]. rewrite <- app_assoc. split; [reflexivity|]. cbn [map flat_map sg_text]. rewrite V, B.
+    split; [reflexivity|]. split; [unfold seg_blk; cbn; destruct (sg_text sg); reflexivity|].
+    eapply st_le_trans; [apply push_alloc_le|exact L].
+Qed.
+
+Lemma append_segs_nf texts : forall acc s, nofault s ->
+  exists segs' s', append_segs acc texts s = (true, rev acc ++ segs', s')
+    /\ map sg_text segs' = texts /\ flat_map seg_blk segs' = [] /\ st_le s s'.
+Proof.
+  induction texts as [|t r IH]; intros acc s Hnf; cbn [append_segs].
+  - exists [], s. rewrite app_nil_r. split; [reflexivity|]. split; [reflexivity|]. split; [reflexivity|apply st_le_refl].
+  - rewrite (alloc_nf _ _ _ Hnf).
+    destruct (IH ({| sg_text := t; sg_blk := None; sg_node := ms_next s |} :: acc) _
+                 (st_le_nofault _ _ (push_alloc_le false SEG_SIZE s) Hnf)) as (segs' & s' & E & V & B & L).
+    exists ({| sg_text := t; sg_blk := None; sg_node := ms_next s |} :: segs'), s'.
+    rewrite E. cbn [rev]. rewrite <- app_assoc. split; [reflexivity|]. cbn [map flat_map sg_text]. rewrite V, B.
+    split; [reflexivity|]. split; [unfold seg_blk; cbn; destruct t; reflexivity|].
+    eapply st_le_trans; [apply push_alloc_le|exact L].
+Qed.
+
+(* what every helper of the two operations guarantees *)
+Definition hstep_ok (d : muri) (s : mstate) (d' : muri) (s' : mstate) : Prop :=
+  (bwf d -> bwf d') /\ (mwf_host d -> mwf_host d') /\ st_le s s'.
+
+Lemma copy_path_m_nf d src s : nofault s ->
+  exists d' s', copy_path_m d src s = (true, d', s') /\ erase d' = copy_path (erase d) (erase src)
+    /\ hstep_ok d s d' s'.
+Proof.
+  intros Hnf. unfold copy_path_m. destruct (copy_segs_nf (m_segs src) [] s Hnf) as (segs' & s' & E & V & B & L).
+  rewrite E. cbn [rev app]. eexists; eexists. split; [reflexivity|]. split.
+  - unfold erase, copy_path. cbn. rewrite V. reflexivity.
+  - split; [|split; [intros H; exact H|exact L]].
+    intros H. apply (bwf_upd (set_m_segs segs' d) _ 5 (flat_map seg_blk segs')); [apply bwf_set_segs; assumption|reflexivity|reflexivity|exact B].
+Qed.
+
+Ltac mproj_cbn :=
+  cbn [m_scheme m_userInfo m_hostText m_ip4 m_ip6 m_ipFuture m_portText m_segs m_query m_fragment m_abs m_owner
+       set_m_scheme set_m_userInfo set_m_hostText set_m_ip4 set_m_ip6 set_m_ipFuture set_m_portText set_m_segs
+       set_m_query set_m_fragment set_m_abs set_m_owner] in *.
+(* bwf of an object obtained from a bwf object by storing borrowed texts *)
+Ltac bwf_tac H :=
+  let Ho := fresh "Ho" in let Hb := fresh "Hb" in
+  destruct H as [Ho Hb]; split; [exact Ho|];
+  apply concat_nil_Forall; apply concat_nil_Forall in Hb; unfold block_parts in *; mproj_cbn;
+  repeat match goal with Hf : Forall _ (_ :: _) |- _ => inversion Hf; clear Hf; subst end;
+  repeat constructor; try assumption; try apply borrow_blk; try reflexivity.
+
+Lemma copy_authority_m_nf d src s : nofault s ->
+  exists d' s', copy_authority_m d src s = (true, d', s') /\ erase d' = copy_authority (erase d) (erase src)
+    /\ (bwf d -> bwf d') /\ (mwf_host src -> mwf_host d') /\ st_le s s'.
+Proof.
+  intros Hnf. unfold copy_authority_m.
+  destruct (m_ip4 src) as [[v b]|] eqn:E4.
+  - rewrite (alloc_nf _ _ _ Hnf). eexists; eexists. split; [reflexivity|]. split; [|split; [|split]].
+    + unfold erase, copy_authority. cbn. rewrite E4. reflexivity.
+    + intros H. bwf_tac H.
+    + intros _ x Hx. cbn in Hx. discriminate Hx.
+    + apply push_alloc_le.
+  - destruct (m_ip6 src) as [[v b]|] eqn:E6.
+    + rewrite (alloc_nf _ _ _ Hnf). eexists; eexists. split; [reflexivity|]. split; [|split; [|split]].
+      * unfold erase, copy_authority. cbn. rewrite E4, E6. reflexivity.
+      * intros H. bwf_tac H.
+      * intros _ x Hx. cbn in Hx. discriminate Hx.
+      * apply push_alloc_le.
+    + eexists; eexists. split; [reflexivity|]. split; [|split; [|split]].
+      * unfold erase, copy_authority. cbn. rewrite E4, E6. reflexivity.
+      * intros H. bwf_tac H.
+      * intros Hs x Hx. cbn in *. apply Hs. exact Hx.
+      * apply st_le_refl.
+Qed.
